@@ -18,6 +18,9 @@ import (
 type Plan struct {
 	Prop    string           `json:"prop"`
 	Class   string           `json:"class,omitempty"` // population label (exact, faults, …)
+	Scenario string          `json:"scenario,omitempty"` // "" = daemon altitude; otherwise a component scenario
+	Clock   []int64          `json:"clock,omitempty"`    // scenario "clock": clock readings, ns relative to the epoch
+	Steps   []Step           `json:"steps,omitempty"`    // component scenarios: scripted steps
 	Offset  int64            `json:"offset"`          // fake ns slept before anything starts (seeds the daemon's PRNGs)
 	Nodes   []NodeSpec       `json:"nodes"`
 	Loop    []RouteW         `json:"loop,omitempty"`   // loopback routes (world-global)
@@ -28,6 +31,15 @@ type Plan struct {
 	Stop    string           `json:"stop,omitempty"` // signal used at the horizon (default SIGTERM); "none": cancel by SIGTERM too but oracles treat as plain end
 	Tail    int64            `json:"tail,omitempty"` // fake ns observed after Serve returned (default 10s)
 	Opt     map[string]int64 `json:"opt,omitempty"`
+}
+
+// A Step is one scripted step of a component scenario.
+type Step struct {
+	Kind string  `json:"kind"`
+	A    int64   `json:"a,omitempty"`
+	B    int64   `json:"b,omitempty"`
+	S    string  `json:"s,omitempty"`
+	L    []int64 `json:"l,omitempty"`
 }
 
 // A NodeSpec is one CoreRAD instance and its machine.
